@@ -110,14 +110,14 @@ def text_sources(P, b, operand, depth=0, seen=None):
             flds = ".".join(f for f in r.fields if not f.startswith("#") and f != "[]")
             if nm == "self" and r.fields:
                 out.append(("Txn.%s" % flds, san))
-            elif b.is_closure and depth < 6 and P.bodies.get(b.parent) is not None:
+            elif b.is_closure and depth < 6 and P.closure_parents(b):
                 # the closure's argument: elements of the receiver of the combinator it is handed to
-                parent = P.bodies[b.parent]
                 hit = False
-                for pbb, pt in parent.calls():
-                    if any(x.kind in ("agg", "closure") and b.key in x.name for a in pt["args"] for x in prov(parent, a)) and pt["args"]:
-                        hit = True
-                        out += [(s_, ok or san) for s_, ok in text_sources(P, parent, pt["args"][0], depth + 1, seen)]
+                for parent in P.closure_parents(b):
+                    for pbb, pt in parent.calls():
+                        if any(x.kind in ("agg", "closure") and b.key in x.name for a in pt["args"] for x in prov(parent, a)) and pt["args"]:
+                            hit = True
+                            out += [(s_, ok or san) for s_, ok in text_sources(P, parent, pt["args"][0], depth + 1, seen)]
                 if not hit:
                     out.append(("closure argument `%s`" % nm, san))
             elif b.key != TODE and depth < 6:
